@@ -64,6 +64,23 @@ func catalogLadder(r *engine.Rec) {
 			r.Violation("two iterators over one catalog influence each other (size ladder)", fmt.Sprintf("%+v: %s", c, why), c)
 			return false
 		}
+		// an iterator taken before an in-place reordering keeps enumerating the catalog as it was
+		if len(m) >= 2 {
+			it := cat.GetIterator()
+			var seen []string
+			seen = append(seen, it.GetNext().GetKey())
+			cat.ReverseValues()
+			for n := 0; it.HasNext() && n <= len(m); n++ {
+				seen = append(seen, it.GetNext().GetKey())
+			}
+			cat.ReverseValues() // back to the order the chain expects
+			for i := range m {
+				if i >= len(seen) || seen[i] != m[i].k {
+					r.Violation("an iterator does not enumerate the catalog as it was when ReverseValues is called during the iteration (size ladder)", fmt.Sprintf("%+v: position %d", c, i+1), c)
+					return false
+				}
+			}
+		}
 		return true
 	}
 	chain := func(name string, steps int, step func(cat col.CatalogLike[string, int], m []lkv, i int) []lkv) {
